@@ -95,6 +95,11 @@ func startServer(bin string) (*restServer, error) {
 		}
 		s := &restServer{addr: addr, stderr: &lockedBuf{}}
 		s.cmd = exec.Command(bin, "-serve", addr)
+		if !strings.HasSuffix(bin, "-race") {
+			// a cap on the server's address space (16 GiB; it normally needs a few MB): a request that makes it allocate
+			// without end must end the server, which the checks then report, not the machine
+			s.cmd = exec.Command("sh", "-c", `ulimit -v 16777216 2>/dev/null; exec "$0" "$@"`, bin, "-serve", addr)
+		}
 		s.cmd.Stdout = io.Discard
 		s.cmd.Stderr = s.stderr
 		if err := s.cmd.Start(); err != nil {
